@@ -6,3 +6,9 @@ native('C14.verify_params', ['C14', 'C17'], 'bounded', 'every pair of tetraplets
        what='real verify_call (refuter paired with the Verus obligation call_verifier:verify_call, and the stand-in when a refactoring takes the unit out of reach): '
             'Ok iff the argument hashes and all four tetraplet components are equal; a rejection is InstructionParametersMismatch naming the parameter',
        pairs=['call_verifier:verify_call'])
+
+native('C14.verify_canon_params', ['C14', 'C11'], 'bounded', 'every pair of tetraplets with the four components over 3 texts each (81 x 81 = 6561 cases)', 'aquavm-air',
+       'air/src/execution_step/instructions/canon_utils/mod.rs', 'verify_canon_params.rs', 'verif_native_verify_canon_params::verify_canon_accepts_exactly_equal_tetraplets',
+       what='real verify_canon (refuter paired with the Verus obligation call_verifier:verify_canon): Ok iff all four tetraplet components are equal; '
+            'a rejection is InstructionParametersMismatch naming "canon tetraplet"',
+       pairs=['call_verifier:verify_canon'])
